@@ -217,6 +217,31 @@ def run(ck, replay=None):
     darsia = import_darsia()
     rng = random.Random(ck.seed)
     quick = ck.tier == "quick"
+    # two geometries on the same voxel grid with other weight maps, used at native and foreign resolutions along every
+    # interleaving of spec/TwoObjects.tla: each integrates with ITS effective volumes
+    from lib import twoobj
+    thists = twoobj.histories(ck)
+    ntwin = 0
+    tspecs = []
+    for gkind in ("weighted", "extporous"):
+        n2 = (4, 6)
+        wa, wb = 1.0 + np.arange(24.0).reshape(n2) % 5, 2.0 + np.arange(24.0).reshape(n2) % 3
+
+        def make(o, gkind=gkind, wa=wa, wb=wb, n2=n2):
+            w_ = (wa if o == "a" else wb).copy()
+            kw = dict(space_dim=2, num_voxels=n2, dimensions=[2.0, 3.0])
+            return darsia.WeightedGeometry(w_, **kw) if gkind == "weighted" else darsia.ExtrudedPorousGeometry(w_, np.ones(n2) * (1.0 if o == "a" else 0.5), **kw)
+
+        def use(o, g, n2=n2):
+            out = []
+            for r_ in ((2, 3), n2, (8, 12), (2, 3)):
+                out.append(float(g.integrate(1.0 + np.arange(float(r_[0] * r_[1])).reshape(r_))))
+            return out
+
+        sel = thists if not quick else [h for h in thists if len(h) <= 4]
+        tspecs.append((sel, "geometry-" + gkind, make, use, lambda x, y: np.allclose(x, y, rtol=1e-9), "twin:" + gkind))
+    ntwin = twoobj.run(ck, "C03", tspecs)
+    ck.cov["twin_object_histories"] = ntwin
     if replay:
         cases = [tuple(c["case"]) for c in json.load(open(replay))["cases"]]
         cases = [(c[0], c[1], tuple(c[2]), c[3], c[4], bool(c[5]), bool(c[6])) + tuple(c[7:]) for c in cases]
